@@ -1,6 +1,5 @@
 package db
 
-import "time"
 
 // vhConvergeStep: C12 as one inductive step from an arbitrary directory
 // state. Per entity, besides the artifact / hash / timestamp facts of C11,
@@ -31,7 +30,7 @@ func vhConvergeStep() {
 	fresh := make([]bool, n)
 	chained := make([]bool, n)
 	hadHash := make([]bool, n)
-	now1 := time.Now()
+	now1 := vNow()
 	for i := 0; i < n; i++ {
 		fresh[i] = vBool(vName("fresh", i))
 		chained[i] = vBool(vName("chained", i))
@@ -93,7 +92,7 @@ func vhConvergeStep() {
 	}
 	// a further run with the default flags plans nothing
 	vClockAdvance()
-	now2 := time.Now()
+	now2 := vNow()
 	for i := 0; i < n; i++ {
 		vAssume(!now2.Before(fs[i].build))
 	}
